@@ -119,12 +119,12 @@ package interpreter
 //@   inline
 //@ func NewWord256ValueFromUint64
 //@   inline
-//@ schema bitop_big(T=Int128Value, N=Int128, bits=128, signed=true, min=-pow2(127), max=pow2(127)-1)
-//@ schema bitop_big(T=Int256Value, N=Int256, bits=256, signed=true, min=-pow2(255), max=pow2(255)-1)
-//@ schema bitop_big(T=UInt128Value, N=UInt128, bits=128, signed=false, min=0, max=pow2(128)-1)
-//@ schema bitop_big(T=UInt256Value, N=UInt256, bits=256, signed=false, min=0, max=pow2(256)-1)
-//@ schema bitop_big(T=Word128Value, N=Word128, bits=128, signed=false, min=0, max=pow2(128)-1)
-//@ schema bitop_big(T=Word256Value, N=Word256, bits=256, signed=false, min=0, max=pow2(256)-1)
+//@ schema bitop_big(T=Int128Value, N=Int128, bits=128, signed=true, min=-pow2(127), max=pow2(127)-1, LEM=L_words_128(num(result)))
+//@ schema bitop_big(T=Int256Value, N=Int256, bits=256, signed=true, min=-pow2(255), max=pow2(255)-1, LEM=L_words_256(num(result)))
+//@ schema bitop_big(T=UInt128Value, N=UInt128, bits=128, signed=false, min=0, max=pow2(128)-1, LEM=L_words_128(num(result)))
+//@ schema bitop_big(T=UInt256Value, N=UInt256, bits=256, signed=false, min=0, max=pow2(256)-1, LEM=L_words_256(num(result)))
+//@ schema bitop_big(T=Word128Value, N=Word128, bits=128, signed=false, min=0, max=pow2(128)-1, LEM=L_words_128(num(result)))
+//@ schema bitop_big(T=Word256Value, N=Word256, bits=256, signed=false, min=0, max=pow2(256)-1, LEM=L_words_256(num(result)))
 
 // ---- bitwise operators and shifts of Int / UInt (C14, C32)
 //@ spec L_uint_tc(x, y) = x >= 0 && y >= 0 ==> tcand(x, y) >= 0 && tcor(x, y) >= 0 && tcxor(x, y) >= 0
